@@ -15,22 +15,31 @@ use std::collections::HashMap;
 
 fn fault_cfg(seed: u64, index: u64) -> HistCfg {
     let mut rng = Rng::from_parts(&[seed, index, 0xFA17]);
+    // every fifth history works inside a directory whose slots are all taken (it has to grow: a
+    // cluster is allocated, wiped and linked under fault)
+    let edge = index % 5 == 4;
     HistCfg {
         prop: "C11".into(),
         seed,
         index,
-        profile: *rng.pick(&[Profile::Dirs, Profile::Dirs, Profile::Mixed, Profile::Rw]),
+        profile: if edge { Profile::Edge } else { *rng.pick(&[Profile::Dirs, Profile::Dirs, Profile::Mixed, Profile::Rw]) },
         limits: (4, 4, 1),
         id_offset: 5000,
-        nops: 8 + rng.usize_below(32),
+        nops: if edge { 4 + rng.usize_below(9) } else { 8 + rng.usize_below(32) },
         two_parts: false,
         fat32: Some(index % 3 == 0),
         max_spc: *rng.pick(&[1u32, 1, 2]),
         recipe: Recipe::Rich, // multi-cluster directories: FAT reads happen during directory walks
-        leave_free: if index % 3 != 0 && rng.chance(1, 4) { Some((*rng.pick(&[1u32, 4, 30]), rng.below(3) as u32)) } else { None },
+        leave_free: if edge {
+            if rng.chance(1, 2) { Some((*rng.pick(&[2u32, 3, 6]), rng.below(3) as u32)) } else { None }
+        } else if index % 3 != 0 && rng.chance(1, 4) {
+            Some((*rng.pick(&[1u32, 4, 30]), rng.below(3) as u32))
+        } else {
+            None
+        },
         force_two_fats: false,
         fsinfo: None,
-        full_dir: false,
+        full_dir: edge,
         mini_deadline: None,
     }
 }
@@ -424,7 +433,7 @@ pub fn one_history(ctx: &Ctx, cfg: &HistCfg, rep: &mut Report) {
         e.step(op);
     }
     // make sure multi-cluster directories are walked: open BIGDIR when it exists
-    e.step(Op::OpenDir { fl: Fl::Raw, parent: 0, name: "BIGDIR".into(), ds: 1 });
+    e.step(Op::OpenDir { fl: Fl::Raw, parent: 0, name: if cfg.full_dir { "FULLDIR" } else { "BIGDIR" }.into(), ds: 1 });
     for _ in 0..cfg.nops {
         if e.aborted {
             break;
